@@ -1,6 +1,7 @@
 package checks
 
 import (
+	"encoding/hex"
 	"bytes"
 	"encoding/base64"
 	"encoding/json"
@@ -270,7 +271,77 @@ func c24find(label string) *c24cmd {
 			return &c24extra[i]
 		}
 	}
+	// "auth:<hex>": an auth request presenting the key with these bytes (long / structured keys)
+	if strings.HasPrefix(label, "auth:") {
+		if c, ok := c24dyn[label]; ok {
+			return c
+		}
+		b, err := hex.DecodeString(label[5:])
+		if err != nil {
+			return nil
+		}
+		key := string(b)
+		c := &c24cmd{label: label, command: "auth", isAuth: true, key: key, body: func(i int) interface{} { return &c24authReq{AuthKey: key} }}
+		c24dyn[label] = c
+		return c
+	}
 	return nil
+}
+
+var c24dyn = map[string]*c24cmd{}
+
+// c24keyVariants: what may be presented instead of the configured key: the key itself, one byte
+// changed at every position class (first, last, around byte 64), truncations and extensions.
+func c24keyVariants(key string) []string {
+	out := []string{key, "", key + "x", key + key}
+	flip := func(i int) {
+		if i >= 0 && i < len(key) {
+			b := []byte(key)
+			b[i] ^= 0x01
+			out = append(out, string(b))
+		}
+	}
+	for _, i := range []int{0, 1, len(key) / 2, 31, 32, 62, 63, 64, 65, len(key) - 2, len(key) - 1} {
+		flip(i)
+	}
+	for _, n := range []int{1, 32, 63, 64, 65, len(key) - 1} {
+		if n > 0 && n < len(key) {
+			out = append(out, key[:n])
+		}
+	}
+	seen := map[string]bool{}
+	var uniq []string
+	for _, v := range out {
+		if !seen[v] {
+			seen[v] = true
+			uniq = append(uniq, v)
+		}
+	}
+	return uniq
+}
+
+// c24authKeys: configured keys of several lengths and every variant of each presented after a
+// handshake, followed by two commands that must stay gated unless the key was the right one.
+func (k *c24sink) authKeys() {
+	ctx := k.ctx
+	scn := ctx.Scn("auth-keys", "cases")
+	mk := func(n int) string {
+		b := make([]byte, n)
+		for i := range b {
+			b[i] = byte('a' + i%23)
+		}
+		return string(b)
+	}
+	for _, key := range []string{"k", mk(16), mk(63), mk(64), mk(65), mk(96), mk(200), "k\x00k", "\xff\xfe"} {
+		for _, pres := range c24keyVariants(key) {
+			k.idx++
+			if !ctx.Mine(k.idx) {
+				continue
+			}
+			cs := &c24case{Scenario: scn.Name, AuthKey: key, Script: []string{"hs", "auth:" + hex.EncodeToString([]byte(pres)), "stats", "tags", "members"}}
+			k.runCase(scn, cs)
+		}
+	}
 }
 
 func c24seq(i int) uint64 { return uint64(11 * (i + 1)) }
@@ -1165,6 +1236,7 @@ func c24runAll(ctx *vc.Ctx, which string) {
 	for _, sc := range c24scenarios(ctx) {
 		k.runScenario(sc)
 	}
+	k.authKeys()
 }
 
 func c24run(ctx *vc.Ctx) { c24runAll(ctx, "C24") }
@@ -1173,7 +1245,7 @@ func c24run(ctx *vc.Ctx) { c24runAll(ctx, "C24") }
 func c25SeqCorrelation(ctx *vc.Ctx) { c24runAll(ctx, "C25SEQ") }
 
 func init() {
-	rule := "cases: every request script of length 1..L over the command alphabet {handshake v1, handshake v2, auth right key, auth wrong key, event, tags, join, force-leave, members, members-filtered, stats, stream, monitor, query, respond, install-key, list-keys, get-coordinate, leave (last only), event with an undecodable body, unknown command} x authKey in {\"\",\"k\"}, each on a fresh real Agent+AgentIPC, delivered (a) pipelined: whole script in one write, (b) stepwise: one request per write with quiescence in between (quick: L-1, alone and after a handshake), (c) on a second connection while another connection is authenticated with open stream and monitor (L-1), (d) pipelined after a fixed successful handshake (L more requests); and over the extended alphabet (below) with L=2 alone and after a handshake; quick L=3; thorough adds L=4 pipelined over the full alphabet, L=4 stepwise over a 14-letter sub-alphabet and L=3 over the alphabet extended by handshake v0/v-1, auth \"\"/\"kk\", stop, use-key, remove-key, force-leave prune, members-filtered with a bad regex, undecodable auth/handshake bodies, (d) also stepwise and after handshake+right key. "
+	rule := "cases: every request script of length 1..L over the command alphabet {handshake v1, handshake v2, auth right key, auth wrong key, event, tags, join, force-leave, members, members-filtered, stats, stream, monitor, query, respond, install-key, list-keys, get-coordinate, leave (last only), event with an undecodable body, unknown command} x authKey in {\"\",\"k\"}, each on a fresh real Agent+AgentIPC, delivered (a) pipelined: whole script in one write, (b) stepwise: one request per write with quiescence in between (quick: L-1, alone and after a handshake), (c) on a second connection while another connection is authenticated with open stream and monitor (L-1), (d) pipelined after a fixed successful handshake (L more requests); and over the extended alphabet (below) with L=2 alone and after a handshake; quick L=3; thorough adds L=4 pipelined over the full alphabet, L=4 stepwise over a 14-letter sub-alphabet and L=3 over the alphabet extended by handshake v0/v-1, auth \"\"/\"kk\", stop, use-key, remove-key, force-leave prune, members-filtered with a bad regex, undecodable auth/handshake bodies, (d) also stepwise and after handshake+right key. (auth-keys) configured keys of 1, 16, 63, 64, 65, 96 and 200 bytes and with NUL / non-UTF-8 bytes x every presented variant (the key, one bit changed at the first, middle, last position and around bytes 31-32 and 62-65, every truncation at those lengths, extensions, the empty key), each after a handshake and followed by stats, tags, members. "
 	vc.Register(&vc.Check{
 		ID:    "C24",
 		Level: "exploration",
